@@ -102,7 +102,7 @@ pub fn run(rep: &Report) -> i32 {
     // (2) every single-edit near miss of the C04 bases (whatever the front end lets through must compile)
     let bases = c04::base_programs(quick);
     par_for(&bases, rep, 1, |bi, (name, base)| {
-        let ms = mutate::near_misses(base);
+        let ms = mutate::near_misses_for(name, base, rep.is_quick());
         rep.transition(ms.len() as u64);
         for (op, m) in ms {
             if rep.out_of_time() {
